@@ -180,12 +180,30 @@ def _rng(t, env, memo):
         args = t[2]
         if f == 'acos':
             return (0.0, math.pi)
-        if f == 'asin' or f == 'atan':
+        if f == 'atan':
+            a = rng(args[0], env, memo)
+            return (math.atan(a[0]), math.atan(a[1]))
+        if f == 'asin':
             return (-math.pi / 2, math.pi / 2)
         if f == 'atan2':
             return (-math.pi, math.pi)
-        if f in ('sin', 'cos'):
+        if f == 'cos':
+            a = rng(args[0], env, memo)
+            if -math.pi / 2 - 1e-12 <= a[0] and a[1] <= math.pi / 2 + 1e-12:
+                lo = min(math.cos(a[0]), math.cos(a[1]))
+                hi = 1.0 if a[0] <= 0 <= a[1] else max(math.cos(a[0]), math.cos(a[1]))
+                return (max(0.0, lo), hi)
             return (-1.0, 1.0)
+        if f == 'sin':
+            a = rng(args[0], env, memo)
+            if -math.pi / 2 - 1e-12 <= a[0] and a[1] <= math.pi / 2 + 1e-12:
+                return (math.sin(a[0]), math.sin(a[1]))
+            return (-1.0, 1.0)
+        if f == 'tan':
+            a = rng(args[0], env, memo)
+            if -math.pi / 2 < a[0] and a[1] < math.pi / 2:
+                return (math.tan(a[0]), math.tan(a[1]))
+            return TOP
         if f == 'abs':
             a = rng(args[0], env, memo)
             if a[0] >= 0:
@@ -243,6 +261,8 @@ def _parity(t, odd, memo):
         return ODD
     if not isinstance(t, tuple) or not t:
         return EVEN
+    if not any(x in odd for x in subterms(t)):
+        return EVEN             # untouched by the mirror
     if _num(t) is not None or t[0] == 'c':
         return EVEN
     tag = t[0]
@@ -304,6 +324,8 @@ def _parity(t, odd, memo):
             return UNK
         if f == 'acos' and ps == [EVEN]:
             return EVEN
+        if f == 'contains' and len(ps) == 2:
+            return EVEN if ps[1] == EVEN and ps[0] == EVEN else (ASYM if ps[1] in (ODD, ASYM) and ps[0] == EVEN else UNK)
         if all(p == EVEN for p in ps):
             return EVEN
         return UNK
@@ -311,3 +333,225 @@ def _parity(t, odd, memo):
         ps = {parity(x, odd, None, memo) for x in t[4]}
         return EVEN if ps <= {EVEN} else UNK
     return UNK
+
+
+# ---------------------------------------------------------------------------
+# monotonicity of a term in one atom (weak): 'inc', 'dec', 'const', '?'
+INC, DEC, CONST = 'inc', 'dec', 'const'
+_FLIP = {INC: DEC, DEC: INC, CONST: CONST, UNK: UNK}
+
+
+def _comb(a, b):
+    if a == CONST:
+        return b
+    if b == CONST:
+        return a
+    if a == b:
+        return a
+    return UNK
+
+
+def _has(t, atom):
+    for x in subterms(t):
+        if x == atom:
+            return True
+    return False
+
+
+def mono(t, atom, env=None, memo=None):
+    """weak monotonicity of t as a function of `atom`; env: ranges of atoms for sign / branch decisions"""
+    if memo is None:
+        memo = {}
+    k = id(t)
+    if k in memo:
+        return memo[k][1]
+    r = _mono(t, atom, env or {}, memo)
+    memo[k] = (t, r)
+    return r
+
+
+def _sign(t, env):
+    lo, hi = rng(t, env)
+    if lo > 0:
+        return 1
+    if hi < 0:
+        return -1
+    if lo >= 0:
+        return 2        # non-negative
+    if hi <= 0:
+        return -2
+    return 0
+
+
+def _mono(t, atom, env, memo):
+    if t == atom:
+        return INC
+    if not isinstance(t, tuple) or not t or not _has(t, atom):
+        return CONST
+    tag = t[0]
+    if tag == 'bin':
+        op = t[1]
+        a = mono(t[2], atom, env, memo)
+        b = mono(t[3], atom, env, memo)
+        if op == 'Add':
+            return _comb(a, b)
+        if op == 'Sub':
+            return _comb(a, _FLIP[b])
+        if op == 'Mul':
+            if b == CONST:
+                s = _sign(t[3], env)
+                return a if s > 0 else (_FLIP[a] if s < 0 else UNK)
+            if a == CONST:
+                s = _sign(t[2], env)
+                return b if s > 0 else (_FLIP[b] if s < 0 else UNK)
+            return UNK
+        if op == 'Div':
+            if b == CONST:
+                s = _sign(t[3], env)
+                return a if s > 0 else (_FLIP[a] if s < 0 else UNK)
+            if a == CONST:
+                # c / g(x): g must keep one strict sign
+                sg = _sign(t[3], env)
+                sc = _sign(t[2], env)
+                if sg in (1, -1) and sc != 0:
+                    r = _FLIP[b]
+                    return r if sc > 0 else _FLIP[r]
+                return UNK
+            return UNK
+        return UNK
+    if tag == 'un' and t[1] == 'Neg':
+        return _FLIP[mono(t[2], atom, env, memo)]
+    if tag == 'cast':
+        return mono(t[2], atom, env, memo)
+    if tag == 'ite':
+        if _has(t[1], atom):
+            return UNK
+        return _comb(mono(t[2], atom, env, memo), mono(t[3], atom, env, memo)) if \
+            mono(t[2], atom, env, memo) == mono(t[3], atom, env, memo) else UNK
+    if tag == 'app':
+        f = t[1]
+        args = t[2]
+        if len(args) != 1:
+            return UNK
+        a = mono(args[0], atom, env, memo)
+        lo, hi = rng(args[0], env)
+        half = math.pi / 2 + 1e-12
+        if f in ('to_radians', 'to_degrees', 'atan', 'asin', 'floor', 'ceil'):
+            return a
+        if f == 'acos':
+            return _FLIP[a]
+        if f == 'sin':
+            if -half <= lo and hi <= half:
+                return a
+            return UNK
+        if f == 'tan':
+            if -half < lo and hi < half:
+                return a
+            return UNK
+        if f == 'cos':
+            if 0 <= lo and hi <= math.pi + 1e-12:
+                return _FLIP[a]
+            if -math.pi - 1e-12 <= lo and hi <= 0:
+                return a
+            return UNK
+        if f == 'abs':
+            if lo >= 0:
+                return a
+            if hi <= 0:
+                return _FLIP[a]
+            return UNK
+        return UNK
+    return UNK
+
+
+# ---------------------------------------------------------------------------
+# polynomial normal form over atoms (any non-arithmetic sub-term is an atom)
+def poly(t, memo=None):
+    """{monomial: coefficient} with monomial = sorted tuple of (atom repr id) - atoms are compared by term equality"""
+    if memo is None:
+        memo = {}
+    k = id(t)
+    if k in memo:
+        return memo[k][1]
+    r = _poly(t, memo)
+    memo[k] = (t, r)
+    return r
+
+
+def _padd(a, b, s=1.0):
+    out = dict(a)
+    for m, c in b.items():
+        out[m] = out.get(m, 0.0) + s * c
+    return {m: c for m, c in out.items() if abs(c) > 1e-15}
+
+
+def _pmul(a, b):
+    out = {}
+    for m1, c1 in a.items():
+        for m2, c2 in b.items():
+            m = tuple(sorted(m1 + m2, key=repr))
+            out[m] = out.get(m, 0.0) + c1 * c2
+    return {m: c for m, c in out.items() if abs(c) > 1e-15}
+
+
+def _poly(t, memo):
+    n = _num(t)
+    if n is not None:
+        return {(): n} if n != 0 else {}
+    if isinstance(t, tuple) and t:
+        if t[0] == 'bin':
+            op = t[1]
+            if op in ('Add', 'Sub'):
+                return _padd(poly(t[2], memo), poly(t[3], memo), 1.0 if op == 'Add' else -1.0)
+            if op == 'Mul':
+                return _pmul(poly(t[2], memo), poly(t[3], memo))
+            if op == 'Div':
+                k = _num(t[3])
+                if k is not None and k != 0:
+                    return {m: c / k for m, c in poly(t[2], memo).items()}
+        if t[0] == 'un' and t[1] == 'Neg':
+            return {m: -c for m, c in poly(t[2], memo).items()}
+    return {(t,): 1.0}
+
+
+def poly_equal(a, b, tol=1e-9):
+    for m in set(a) | set(b):
+        if abs(a.get(m, 0.0) - b.get(m, 0.0)) > tol * max(1.0, abs(a.get(m, 0.0)), abs(b.get(m, 0.0))):
+            return False
+    return True
+
+
+def show_poly(p, show):
+    parts = []
+    for m, c in sorted(p.items(), key=lambda kv: repr(kv[0])):
+        parts.append(f'{c:+.6g}' + ''.join('*' + show(x, maxd=2)[:30] for x in m))
+    return ' '.join(parts) or '0'
+
+
+
+def ite_conds(t, out=None):
+    out = [] if out is None else out
+    for x in subterms(t):
+        if x and x[0] == 'ite' and x[1] not in out:
+            out.append(x[1])
+    return out
+
+
+def equiv_cases(a, b, max_conds=8):
+    """True if a and b agree (structurally or as polynomials over their non-arithmetic atoms) under every assignment of the
+    conditions of their ite sub-terms; False if some assignment separates them; None if there are too many conditions."""
+    if a == b:
+        return True
+    from .engine import specialise
+    import itertools
+    conds = ite_conds(a)
+    ite_conds(b, conds)
+    # conditions nested inside other conditions' terms do not need separate treatment
+    if len(conds) > max_conds:
+        return None
+    for bits in itertools.product([True, False], repeat=len(conds)):
+        asm = dict(zip(conds, bits))
+        sa, sb = specialise(a, asm), specialise(b, asm)
+        if sa != sb and not poly_equal(poly(sa), poly(sb)):
+            return False
+    return True
